@@ -254,7 +254,8 @@ pub fn binary(kind: &str, l: Expr, r: Expr) -> Option<Expr> {
 
 pub fn index_from_model(j: &J) -> Result<Index, String> {
     match j["k"].as_str() {
-        Some("f") => Ok(Index::Map(uncps(&j["name"])?)),
+        // through the public conversion from &str: a field step stays a field step whatever its text ("1", "")
+        Some("f") => Ok(Index::from(uncps(&j["name"])?.as_str())),
         Some("i") => Ok(Index::Vec(j["i"].as_u64().ok_or("index i")? as usize)),
         Some("I") => Ok(Index::Vec(usize::try_from(unlimbs(&j["big"])?).map_err(|_| "index beyond usize")?)),
         _ => Err(format!("bad index {j}")),
@@ -383,6 +384,14 @@ pub fn classify(e: &reval::Error) -> Obs {
         E::ValueOutOfBounds(v, _) => ("ValueOutOfBounds", Some(v.clone()), None),
         E::DivisionByZero => ("DivisionByZero", None, None),
         E::InvalidSymbol(n) => ("InvalidSymbol", None, Some(n.clone())),
+        // a variant this harness does not know (added by a change to the library): observed as itself,
+        // which no class of the specification accepts - a verdict, not a build failure
+        #[allow(unreachable_patterns)]
+        other => {
+            let dbg = format!("{other:?}");
+            let name = dbg.split(|c: char| !c.is_alphanumeric()).next().unwrap_or("Unknown").to_string();
+            return Obs::Err { variant: name, payload: None, name: None, msg: other.to_string() };
+        }
     };
     Obs::Err { variant: variant.into(), payload, name, msg: e.to_string() }
 }
